@@ -10,7 +10,9 @@
 EXTENDS FieldOps, Json
 
 CONSTANTS Shapes,      \* subset of {0, 1, 2}: 0-d, (3,), (2,2)
-          NFields,     \* numbers of fields of the initial array (subset of 1..4)
+          NFields,     \* numbers of fields of the initial array: 1..4 (named a b c d), or more - a WIDE table f1 .. fn
+          Marks,       \* wide tables of more than 10 fields: the field positions (besides the last) the first operation may
+                       \* name, in every order (up to 10 fields: every position)
           Rots,        \* type assignments: field k gets Types[(r + s*(k-1)) % 12 + 1], r = Rot % 12, s = 1 (Rot < 12) or 5
           NameStyles,  \* how the (symbolic) field names are spelt in the real arrays: 0 plain, 1 names that differ only in
                        \* case + long names, 2 non-ASCII names (the adapter owns the spelling table; the algebra is name-blind)
@@ -38,9 +40,9 @@ ST1 == Struct(<<>>, <<In("a", T("f4", <<>>, ">")), In("zz", T("i2", <<2>>, "<"))
 ST2 == Struct(<<2>>, <<In("b", T("U2", <<>>, ">")),
                        In("m", Struct(<<>>, <<In("a", T("i4", <<>>, ">")), In("x", T("f8", <<>>, "<"))>>)),
                        In("p", T("S3", <<>>, "|"))>>)
-Types == << T("i4", <<>>, "<"), ST1, T("f8", <<>>, ">"), T("S3", <<>>, "|"),
+Types == << T("i8", <<>>, "<"), ST1, T("f8", <<>>, ">"), T("S3", <<>>, "|"),
             T("i4", <<>>, ">"), T("U2", <<>>, "<"), T("i2", <<2>>, "<"), ST2,
-            T("f8", <<>>, "<"), T("f4", <<2, 2>>, "<"), T("b1", <<8>>, "|"), T("c8", <<>>, ">") >>
+            T("f8", <<>>, "<"), T("f4", <<2, 2>>, "<"), T("b1", <<16>>, "|"), T("c8", <<>>, ">") >>
 NT == 12
 ShapeOf(s) == CASE s = 0 -> <<>> [] s = 1 -> <<3>> [] s = 2 -> <<2, 2>>
 OtherSize(s) == CASE s = 0 -> <<2>> [] s = 1 -> <<4>> [] s = 2 -> <<3>>     \* a shape of a different size
@@ -48,7 +50,9 @@ FieldNames == <<"a", "b", "c", "d">>
 Missing == "zz"
 
 TypeAt(r, k) == Types[(((r % NT) + (IF r < NT THEN 1 ELSE 5) * (k - 1)) % NT) + 1]
-InitArr(s, n, r) == FOArr(ShapeOf(s), [k \in 1..n |-> Fld(FieldNames[k], TypeAt(r, k), "A." \o FieldNames[k])])
+\* the algebra is independent of the number of fields (BlockLaw below): wide tables are instances like any other
+FName(n, k) == IF n <= 4 THEN FieldNames[k] ELSE "f" \o ToString(k)
+InitArr(s, n, r) == FOArr(ShapeOf(s), [k \in 1..n |-> Fld(FName(n, k), TypeAt(r, k), "A." \o FName(n, k))])
 \* the same type in the other byte order (through every level of a nested field)
 RECURSIVE Flip(_)
 Flip(t) == [t EXCEPT !.order = IF @ = "<" THEN ">" ELSE IF @ = ">" THEN "<" ELSE @,
@@ -62,11 +66,11 @@ Pool(s, n, r) ==
         C |-> WithId("C", FOArr(sh, <<Fld("z", TypeAt(r, 6), "C.z")>>)),
         F |-> WithId("F", FOArr(sh, <<Fld("w", TypeAt(r, 2), "F.w")>>)),
         \* D shares the name of A's first field, E has a different size
-        D |-> WithId("D", FOArr(sh, <<Fld("v", TypeAt(r, 3), "D.v"), Fld("a", TypeAt(r, 5), "D.a")>>)),
+        D |-> WithId("D", FOArr(sh, <<Fld("v", TypeAt(r, 3), "D.v"), Fld(FName(n, 1), TypeAt(r, 5), "D." \o FName(n, 1))>>)),
         E |-> WithId("E", FOArr(OtherSize(s), <<Fld("u", TypeAt(r, 1), "E.u")>>)),
         \* G has A's first and last field (same kind, the other byte order) and one of its own
         G |-> WithId("G", FOArr(sh, <<Fld("g", TypeAt(r, 8), "G.g"), Fld(a.fields[n].name, Flip(TypeAt(r, n)), "G." \o a.fields[n].name)>>
-                                      \o (IF n > 1 THEN <<Fld("a", Flip(TypeAt(r, 1)), "G.a")>> ELSE <<>>)))]
+                                      \o (IF n > 1 THEN <<Fld(FName(n, 1), Flip(TypeAt(r, 1)), "G." \o FName(n, 1))>> ELSE <<>>)))]
 Cur == [id |-> "cur", shape |-> <<>>, fields |-> <<>>]
 
 Op(op, names, strict, form) == [op |-> op, names |-> names, strict |-> strict, form |-> form,
@@ -76,7 +80,9 @@ Op(op, names, strict, form) == [op |-> op, names |-> names, strict |-> strict, f
 InjSeqs(S, m) == UNION {{q \in [1..n -> S] : \A i, j \in 1..n : i < j => q[i] # q[j]} : n \in 1..m}
 First == hist = <<>>
 Lean == Len(hist) >= LeanFrom                     \* a thinner alphabet for the late operations of a chain
-Symbols == IF First THEN FONameSet(cur) \cup {Missing}
+Symbols == IF First THEN (IF Len(cur.fields) <= 4 THEN FONameSet(cur)
+                         ELSE IF Len(cur.fields) <= 10 THEN FONameSet(cur)
+                         ELSE {cur.fields[k].name : k \in (Marks \cap DOMAIN cur.fields) \cup {Len(cur.fields)}}) \cup {Missing}
            ELSE IF Lean THEN {cur.fields[1].name, cur.fields[Len(cur.fields)].name, Missing}
            ELSE {cur.fields[1].name, cur.fields[VMin2(2, Len(cur.fields))].name, cur.fields[Len(cur.fields)].name, Missing}
 NameSeqs == InjSeqs(Symbols, IF First THEN Names1 ELSE NamesN)
@@ -94,6 +100,7 @@ Start ==
     /\ key = <<>>
     /\ \E s \in Shapes : \E n \in NFields : \E r \in Rots : \E ns \in NameStyles :
           /\ NameCover => ns = (s + n + r) % 3
+          /\ n > 4 => s = (n \div 3) % 3                   \* (a wide table comes in one shape)
           /\ key' = <<s, n, r, ns>>
           /\ cur' = InitArr(s, n, r) /\ prev' = InitArr(s, n, r) /\ hist' = <<>>
 
@@ -103,6 +110,20 @@ CanStep == key # <<>> /\ Len(hist) < MaxDepth       \* (first conjunct of every 
 Extract == CanStep /\ \E q \in NameSeqs : \E st \in StrictFor(q) : \E f \in FormsFor(q) : Step(Op("extract", q, st, f))
 Remove  == CanStep /\ \E q \in NameSeqs : \E f \in FormsFor(q) : Step(Op("remove", q, TRUE, f))
 Reorder == CanStep /\ \E q \in NameSeqs : \E st \in StrictFor(q) : \E f \in FormsFor(q) : Step(Op("reorder", q, st, f))
+
+\* defaults of DIFFERENT kinds side by side (each belongs to its own field: none may be converted through the type
+\* of its neighbour): 64-bit integers at the ends of their range (d4, d5: no double holds them) next to floats,
+\* bytes / unicode next to numbers, 0.1 in a float32 field next to an integer, a per-field ARRAY default (the data
+\* token H.x: an array of the field's full shape) next to a scalar one, for a nested field too
+MixedDefaults ==
+    LET i8 == T("i8", <<>>, "<")  u8 == T("u8", <<>>, ">")  i4 == T("i4", <<>>, ">")  f8 == T("f8", <<>>, "<")
+        f4 == T("f4", <<>>, ">")  s3 == T("S3", <<>>, "|")  u2 == T("U2", <<>>, "<")
+    IN {<<Fld("p", i8, "d4"), Fld("q", f8, "d1")>>, <<Fld("q", f8, "d2"), Fld("p", u8, "d4")>>,
+        <<Fld("p", i8, "d5"), Fld("q", f4, "d4")>>, <<Fld("p", s3, "d1"), Fld("q", i8, "d4")>>,
+        <<Fld("p", u8, "d5"), Fld("q", u2, "d2")>>, <<Fld("p", s3, "d5"), Fld("q", u2, "d4")>>,
+        <<Fld("p", i8, "H.p"), Fld("q", f8, "d1")>>, <<Fld("q", f8, "H.q"), Fld("p", u8, "d4")>>,
+        <<Fld("s", ST1, "H.s")>>, <<Fld("p", i8, "d4")>>, <<Fld("q", f4, "d4"), Fld("s", ST1, "d5")>>,
+        <<Fld("p", i4, "d4"), Fld("q", f8, "d5"), Fld("s", u8, "d4")>>}
 
 \* descriptors of <= 2 new fields, with and without defaults; one that names an existing field;
 \* a new NESTED field (whose inner names exist at the top level: no clash, "a" inside "s" is not "a")
@@ -115,8 +136,9 @@ AddSets ==
     IN IF Lean THEN {<<p1>>, <<a0>>}
        ELSE {<<p0>>, <<p1>>, <<s0, p0>>, <<p1, q2>>, <<a0>>}
             \cup (IF First THEN {<<q2>>, <<p0, a0>>, <<q2, p1>>, <<s2>>} ELSE {})
-            \cup (IF First /\ MaxDepth = 1 THEN {<<q0, p0>>, <<p1, s2>>, <<Fld("s", ST2, "zero")>>} ELSE {})
-Add == CanStep /\ \E d \in AddSets : \E f \in (IF First THEN {"descr", "dtype"} ELSE {"descr"}) :
+            \cup (IF First /\ MaxDepth = 1 THEN {<<q0, p0>>, <<p1, s2>>, <<Fld("s", ST2, "zero")>>} \cup MixedDefaults ELSE {})
+\* the forms: a descr list / a dtype (one default: given bare) / a descr list with the defaults as numpy scalars
+Add == CanStep /\ \E d \in AddSets : \E f \in (IF First THEN {"descr", "dtype"} \cup (IF MaxDepth = 1 THEN {"descr_np"} ELSE {}) ELSE {"descr"}) :
           Step([Op("add", <<>>, TRUE, f) EXCEPT !.add = d])
 
 \* lists of 1..4 arrays; a shared name; a different size
@@ -133,7 +155,11 @@ Copy == CanStep /\ \E l \in (IF Lean THEN {<<PoolNow.G, Cur>>} ELSE {<<PoolNow.G
            Step([Op("copy", <<>>, TRUE, "list") EXCEPT !.others = l])
 
 CopyByName == CanStep /\ \E q \in (IF Lean THEN {<<cur.fields[1].name>>} ELSE InjSeqs(Symbols, IF First THEN 2 ELSE 1)) : \E f \in FormsFor(q) :
-                 Step([Op("copy_by_name", q, TRUE, f) EXCEPT !.vals = [k \in DOMAIN q |-> IF k = 1 THEN "d1" ELSE "d3"]])
+                 \E vp \in (IF First /\ MaxDepth = 1 THEN {1, 2, 3} ELSE {1}) :   \* (2: a range-end value next to a float / text; 3: a per-field array)
+                 Step([Op("copy_by_name", q, TRUE, f) EXCEPT !.vals = [k \in DOMAIN q |->
+                          CASE vp = 1 -> (IF k = 1 THEN "d1" ELSE "d3")
+                            [] vp = 2 -> (IF k = 1 THEN "d4" ELSE "d2")
+                            [] vp = 3 -> (IF k = 1 THEN "H.p" ELSE "d1")]])
 
 Split == CanStep /\ \/ \E q \in (IF Lean THEN {<<cur.fields[Len(cur.fields)].name>>, <<Missing>>} ELSE NameSeqs) : \E f \in FormsFor(q) : Step(Op("split", q, TRUE, f))
                     \/ Step(Op("split", <<>>, TRUE, "none"))
@@ -188,6 +214,24 @@ RejectLaws == Stepped =>
     /\ (op.op = "remove" /\ FONameSet(prev) \subseteq VRange(op.names)) => E0.err = "rejected"
     /\ (op.op = "add" /\ \E k \in DOMAIN op.add : op.add[k].name \in FONameSet(prev)) => E0.err = "rejected"
     /\ (op.op = "combine" /\ \E k \in DOMAIN op.others : op.others[k].id = "E") => E0.err = "rejected"
+
+\* SIZE INDEPENDENCE (what lets wide tables be judged like small ones): cut the field sequence of the input anywhere;
+\* extraction and removal of the whole are the concatenation of those of the two blocks, a reordering puts the named
+\* fields first and then the unnamed fields of the first block followed by those of the second, a split hands out the
+\* views of the named fields whichever block they are in
+BlockLaw == (Stepped /\ Last.op \in {"extract", "remove", "reorder"}) =>
+    LET op == [Last EXCEPT !.strict = FALSE]  a == prev  E0 == FOExpected(a, op) IN
+    (E0.err = "none" /\ ~FOUnconstrained(a, op)) =>
+       \A k \in 0..Len(a.fields) :
+          LET L == FOArr(a.shape, SubSeq(a.fields, 1, k))
+              R == FOArr(a.shape, SubSeq(a.fields, k + 1, Len(a.fields)))
+              res(x) == IF x.fields = <<>> THEN <<>>
+                        ELSE LET e == FOExpected(x, op) IN IF e.err = "none" THEN e.arr.fields ELSE <<>>
+              nfront(x) == Len(SelectSeq(op.names, LAMBDA n : n \in FONameSet(x)))
+              rest(x) == SubSeq(res(x), nfront(x) + 1, Len(res(x)))
+          IN IF op.op = "reorder" THEN /\ rest(a) = rest(L) \o rest(R)
+                                       /\ FONameSet(FOArr(a.shape, SubSeq(E0.arr.fields, 1, nfront(a)))) = VRange(op.names) \cap FONameSet(a)
+             ELSE E0.arr.fields = res(L) \o res(R)
 
 \* the implementation-shaped mechanism refines the property (documented forms of passing names)
 MechRefines == (Stepped /\ FOGating(Last)) => FOAccept(prev, Last, FOMechObs(prev, Last, FixedShape))
